@@ -49,7 +49,7 @@ def main():
     first = demo.splitlines()[0] if demo else ""
     head = "\n".join(demo.splitlines()[:6])
     mf = re.search(r"-F\s*([\w,]+)", head) or re.search(r"--features[= ]([\w,]+)", head)
-    if re.search(r"no (cargo )?features", head):
+    if re.search(r"no (cargo )?features|default features|neither svg nor image", head):
         feats = ""
     elif mf:
         feats = "-F " + mf.group(1)
